@@ -69,3 +69,32 @@ def call_routes(module, func, cls, old, ext_codes):
       r['EXT2/' + name] = b'\x83' + struct.pack('<H', code) + (tup(i(1)) + b'R' if name == 'fire' else b'')
     r['EXT4/' + name] = b'\x84' + struct.pack('<i', code) + (tup(i(1)) + b'R' if name == 'fire' else b'')
   return r
+
+
+# ---- one representative instance of each of the 68 pickle opcodes (small, well-formed arguments) -------
+OPCODES = [
+  ('INT', b'I7\n'), ('BININT', b'J\x07\x00\x00\x00'), ('BININT1', b'K\x07'), ('BININT2', b'M\x07\x00'),
+  ('LONG', b'L7L\n'), ('LONG1', b'\x8a\x01\x07'), ('LONG4', b'\x8b\x01\x00\x00\x00\x07'),
+  ('STRING', b"S'ab'\n"), ('BINSTRING', b'T\x02\x00\x00\x00ab'), ('SHORT_BINSTRING', b'U\x02ab'),
+  ('BINBYTES', b'B\x02\x00\x00\x00ab'), ('SHORT_BINBYTES', b'C\x02ab'),
+  ('BINBYTES8', b'\x8e\x02\x00\x00\x00\x00\x00\x00\x00ab'), ('BYTEARRAY8', b'\x96\x02\x00\x00\x00\x00\x00\x00\x00ab'),
+  ('NEXT_BUFFER', b'\x97'), ('READONLY_BUFFER', b'\x98'),
+  ('NONE', b'N'), ('NEWTRUE', b'\x88'), ('NEWFALSE', b'\x89'),
+  ('UNICODE', b'Vab\n'), ('SHORT_BINUNICODE', b'\x8c\x02ab'), ('BINUNICODE', b'X\x02\x00\x00\x00ab'),
+  ('BINUNICODE8', b'\x8d\x02\x00\x00\x00\x00\x00\x00\x00ab'),
+  ('FLOAT', b'F1.5\n'), ('BINFLOAT', b'G?\xf8\x00\x00\x00\x00\x00\x00'),
+  ('EMPTY_LIST', b']'), ('APPEND', b'a'), ('APPENDS', b'e'), ('LIST', b'l'),
+  ('EMPTY_TUPLE', b')'), ('TUPLE', b't'), ('TUPLE1', b'\x85'), ('TUPLE2', b'\x86'), ('TUPLE3', b'\x87'),
+  ('EMPTY_DICT', b'}'), ('DICT', b'd'), ('SETITEM', b's'), ('SETITEMS', b'u'),
+  ('EMPTY_SET', b'\x8f'), ('ADDITEMS', b'\x90'), ('FROZENSET', b'\x91'),
+  ('POP', b'0'), ('DUP', b'2'), ('MARK', b'('), ('POP_MARK', b'1'),
+  ('GET', b'g0\n'), ('BINGET', b'h\x00'), ('LONG_BINGET', b'j\x00\x00\x00\x00'),
+  ('PUT', b'p0\n'), ('BINPUT', b'q\x00'), ('LONG_BINPUT', b'r\x00\x00\x00\x00'), ('MEMOIZE', b'\x94'),
+  ('EXT1', b'\x82\x01'), ('EXT2', b'\x83\x01\x00'), ('EXT4', b'\x84\x01\x00\x00\x00'),
+  ('GLOBAL', b'cbuiltins\nobject\n'), ('STACK_GLOBAL', b'\x93'),
+  ('REDUCE', b'R'), ('BUILD', b'b'), ('INST', b'ibuiltins\nobject\n'), ('OBJ', b'o'),
+  ('NEWOBJ', b'\x81'), ('NEWOBJ_EX', b'\x92'),
+  ('PROTO', b'\x80\x02'), ('STOP', b'.'), ('FRAME', b'\x95\x00\x00\x00\x00\x00\x00\x00\x00'),
+  ('PERSID', b'Pab\n'), ('BINPERSID', b'Q'),
+]
+assert len(OPCODES) == 68
